@@ -93,6 +93,10 @@ def check(case, ctx):
         return
     if case.get("decoy"):
         ctx.count("decoy_module_" + case["decoy"])
+    if "\r\n" in text:
+        ctx.count("crlf_line_endings")
+    if not text.endswith("\n"):
+        ctx.count("no_final_newline")
     if "//" in text:
         ctx.count("line_comments")
     if "/*" in text:
@@ -201,6 +205,6 @@ def gates(counters, table, tier):
     for op in ("and", "or", "xor", "xnor", "not"):
         if counters.get(f"expr:{op}", 0) < 50:
             out.append(f"operator {op} generated {counters.get(f'expr:{op}', 0)} times")
-    need = ["decoy_module_after", "decoy_module_before", "infer_module_name", "wrong_module_name", "expr:tern", "expr:repeated_subexpr", "multi_instance_statement", "pin:unconnected", "pin:omitted", "pin:net", "line_comments", "block_comments", "escaped_names", "lookalike_names", "expr:wide_chain", "expr:long_names", "blackboxes_as:tuple", "blackboxes_as:set"] + [f"neg:{n}" for n in NEG]
+    need = ["decoy_module_after", "decoy_module_before", "infer_module_name", "wrong_module_name", "expr:tern", "expr:repeated_subexpr", "multi_instance_statement", "pin:unconnected", "pin:omitted", "pin:net", "line_comments", "block_comments", "escaped_names", "lookalike_names", "expr:wide_chain", "expr:long_names", "crlf_line_endings", "no_final_newline", "blackboxes_as:tuple", "blackboxes_as:set"] + [f"neg:{n}" for n in NEG]
     out += [f"{k} seen {counters.get(k, 0)} times" for k in need if counters.get(k, 0) < 3]
     return out
